@@ -7,7 +7,7 @@ src, sid, prop, needs, caught = sys.argv[1:6]
 dst = os.path.join(VERIF, 'seeded', sid)
 os.makedirs(dst, exist_ok=True)
 for f in os.listdir(src):
-    if f in ('demo',) or f.endswith('.o'):
+    if f in ('demo',) or f.endswith('.o') or os.path.isdir(os.path.join(src, f)):
         continue
     shutil.copy(os.path.join(src, f), dst)
 readme = open(os.path.join(src, 'README.txt')).read() if os.path.exists(os.path.join(src, 'README.txt')) else ''
